@@ -34,7 +34,8 @@ def cast_scalar(v, name):
     if name is None:
         return v
     if not core.is_sym(v):
-        return v
+        real = {"f32": _np.float32, "i16": _np.int16, "i8": _np.int8, "i64": _np.int64, "i32": _np.int32}.get(name)
+        return real(v).item() if real is not None else v
     if name in ("i64", "i32", "int"):
         return core.concretize(sx_trunc(v))      # integer results are used as indices: fork over the feasible values
     f = core.ufun(name, 1)
